@@ -114,6 +114,7 @@ def name_pools():
         "ternary": {"i0": "a", "i1": "a_X", "g": "g_X", "h": "g_x_in_fi"},
         "limit": {"i0": "g_limit_fanin_0", "i1": "g_limit_fanout_0", "h": "g_limit_fanin_1"},
         "miter": {"i0": "sat", "i1": "dif_g", "h": "c0_g", "i2": "c1_g"},
+        "miter2": {"i0": "dif_en", "i1": "sat_in", "i2": "c0x", "h": "dif", "a": "dif_a_en", "s": "c1", "b": "satb"},
         "unroll": {"i0": "unrolled_0_a", "i1": "aux_in_g", "h": "c0_a"},
         "unroll2": {"i0": "a_cg_unroll_0", "i1": "unrolled_1_g", "g": "a_cg_unroll_1", "h": "a"},
         "regs": {"i0": "ff_g", "i1": "g_cg_insert_reg_q_1", "h": "clk", "g": "g"},
@@ -223,6 +224,11 @@ def f_bb():
     n2, e2 = pins("b1", BOX, {"p": "y0", "r": "z0", "y": "y1", "z": "z1"})
     add("back_to_back", I("a", "b") + [("y0", "buf", []), ("z0", "buf", []), ("y1", "buf", [], True), ("z1", "buf", []), ("o", "nor", ["z1", "a"], True)] + n1 + n2,
         {"b0": BOX, "b1": BOX}, e1 + e2)
+    n1, e1 = pins("b0", BOX, {"p": "a", "r": "b", "y": "y0", "z": "z0"})
+    n2, e2 = pins("b1", BOX, {"p": "y0", "y": "y1"})  # same box type, r and z left unconnected by the later instance
+    n3, e3 = pins("b2", BOX, {"r": "z0", "z": "z2"})
+    add("boxes_partial", I("a", "b") + [("y0", "buf", []), ("z0", "buf", []), ("y1", "buf", [], True), ("z2", "buf", []), ("o", "nor", ["z2", "a"], True)] + n1 + n2 + n3,
+        {"b0": BOX, "b1": BOX, "b2": BOX}, e1 + e2 + e3)
     n, e = pins("f0", FF, {"clk": "k1", "d": "k0", "q": "qb"})
     add("flop_consts", I("a") + [("k0", "0", []), ("k1", "1", []), ("qb", "buf", []), ("o", "or", ["qb", "a"], True)] + n, {"f0": FF}, e)
     return S
@@ -250,6 +256,8 @@ def seq_circuits():
                                     {"r0": ("d", "q")}, FF, "d", "q", {"clk": "clk"}), "d", "q"))
     S.append((("seq", "shift2"), mk("shift2", I("clk", "a") + [("q0", "buf", []), ("q1", "buf", []), ("d0", "buf", ["a"]), ("d1", "and", ["q0", "a"]), ("o", "or", ["q0", "q1"], True)],
                                     {"r0": ("d0", "q0"), "r1": ("d1", "q1")}, FF, "d", "q", {"clk": "clk"}), "d", "q"))
+    S.append((("seq", "qnames"), mk("qnames", I("clk", "req_q", "en_d") + [("q", "buf", []), ("d", "xor", ["req_q", "q", "en_d"]), ("ack_q", "and", ["q", "req_q"], True), ("st_d", "not", ["q"], True)],
+                                    {"r0": ("d", "q")}, FF, "d", "q", {"clk": "clk"}), "d", "q"))
     CKDQ = ["dff", ["CK", "D"], ["Q"]]
     S.append((("seq", "cnt3"), mk("cnt3", I("CK", "inc") + [("s0", "buf", []), ("s1", "buf", []), ("s2", "buf", []),
                                                              ("n0", "xor", ["s0", "inc"]), ("c0", "and", ["s0", "inc"]), ("n1", "xor", ["s1", "c0"]), ("c1", "and", ["s1", "c0"]),
